@@ -2,7 +2,8 @@
    entry the model emits is MCNP's facet of the same number, outward positive,
    and the solid is where all entries are negative. *)
 From Coq Require Import List ZArith Bool Reals Lra Lia.
-From T4V Require Import Base.Scalar C03.Vec C03.Model C03.Spec C03.VecFacts.
+From T4V Require Import Base.Scalar C03.Vec C03.Model C03.Convert C03.Spec C03.SpecT4
+  C03.VecFacts C03.WfFacts.
 Import ListNotations.
 Open Scope R_scope.
 
@@ -42,14 +43,15 @@ Proof.
       rewrite Rabs_right by lra; cbn [Z.opp IZR IPR]; unfold Rdiv; ring.
 Qed.
 
-Theorem box_facets_ok (v a1 a2 a3 : pt) :
+Lemma box_facets_ok_full (v a1 a2 a3 : pt) :
   box_admissible a1 a2 a3 ->
-  exists es, box RS (pl v ++ pl a1 ++ pl a2 ++ pl a3) = Ok es /\
+  exists es, box RS (pl v ++ pl a1 ++ pl a2 ++ pl a3) = Ok es /\ Forall entry_wf es /\
              Forall2 same_facet es (box_facets v a1 a2 a3).
 Proof.
   intros (H12 & H13 & H23 & HD).
   open_body @box. rewrite (pl_nil a3), v3_at0, v3_at3, v3_at6, v3_at9. tospec.
   eexists; split; [reflexivity|].
+  split; [destruct (cross_nz a1 a2 a3 HD) as (C1 & C2 & C3); wf_planes|].
   assert (H21 : dot a2 a1 = 0) by now rewrite dot_comm.
   assert (H31 : dot a3 a1 = 0) by now rewrite dot_comm.
   assert (H32 : dot a3 a2 = 0) by now rewrite dot_comm.
@@ -65,6 +67,15 @@ Proof.
   destruct (box_pair v a3 (cross a1 a2) (det a1 a2 a3) HD N3) as [F5 F6].
   { intros q. rewrite (det_cyc a1 a2 a3), (det_cyc a2 a3 a1). now apply cross_parallel. }
   unfold box_facets. repeat (constructor; [assumption|]). constructor.
+Qed.
+
+Theorem box_facets_ok (v a1 a2 a3 : pt) :
+  box_admissible a1 a2 a3 ->
+  exists es, box RS (pl v ++ pl a1 ++ pl a2 ++ pl a3) = Ok es /\
+             Forall2 same_facet es (box_facets v a1 a2 a3).
+Proof.
+  intros. edestruct (box_facets_ok_full v a1 a2 a3) as (es & E & _ & F); try eassumption.
+  exists es; split; assumption.
 Qed.
 
 (* the solid itself: v + s a1 + t a2 + u a3, 0 < s, t, u < 1 *)
@@ -106,14 +117,23 @@ Proof.
 Qed.
 
 (* ---------------- RPP ---------------- *)
+Lemma rpp_facets_ok_full (x0 x1 y0 y1 z0 z1 : R) :
+  exists es, rpp RS [x0; x1; y0; y1; z0; z1] = Ok es /\ Forall entry_wf es /\
+             Forall2 same_facet es (rpp_facets x0 x1 y0 y1 z0 z1).
+Proof.
+  eexists; split; [reflexivity|].
+  split; [rs; repeat (apply Forall_cons; [cbn [entry_wf]; intros E; injection E; intros; lra|]); apply Forall_nil|]. unfold rpp_facets. rs.
+  repeat (constructor; [exists 1; split; [lra|]; intros [[x y] z];
+                        cbn [nth entry_value eval_surf dot IZR IPR]; ring|]).
+  constructor.
+Qed.
+
 Theorem rpp_facets_ok (x0 x1 y0 y1 z0 z1 : R) :
   exists es, rpp RS [x0; x1; y0; y1; z0; z1] = Ok es /\
              Forall2 same_facet es (rpp_facets x0 x1 y0 y1 z0 z1).
 Proof.
-  eexists; split; [reflexivity|]. unfold rpp_facets. rs.
-  repeat (constructor; [exists 1; split; [lra|]; intros [[x y] z];
-                        cbn [nth entry_value eval_surf dot IZR IPR]; ring|]).
-  constructor.
+  intros. edestruct (rpp_facets_ok_full x0 x1 y0 y1 z0 z1) as (es & E & _ & F); try eassumption.
+  exists es; split; assumption.
 Qed.
 
 Lemma rpp_inside_facets (x0 x1 y0 y1 z0 z1 : R) (p : pt) :
@@ -125,12 +145,20 @@ Proof.
 Qed.
 
 (* ---------------- SPH ---------------- *)
+Lemma sph_facets_ok_full (c : pt) (r : R) :
+  exists es, sph (pl c ++ [r]) = Ok es /\ Forall entry_wf es /\ Forall2 same_facet es (sph_facets c r).
+Proof.
+  destruct c as [[cx cy] cz]. eexists; split; [reflexivity|].
+  split; [constructor; [exact I|constructor]|].
+  constructor; [|constructor]. exists 1. split; [lra|]. intros p.
+  cbn [pl app entry_value eval_surf IZR IPR]. ring.
+Qed.
+
 Theorem sph_facets_ok (c : pt) (r : R) :
   exists es, sph (pl c ++ [r]) = Ok es /\ Forall2 same_facet es (sph_facets c r).
 Proof.
-  destruct c as [[cx cy] cz]. eexists; split; [reflexivity|].
-  constructor; [|constructor]. exists 1. split; [lra|]. intros p.
-  cbn [pl app entry_value eval_surf IZR IPR]. ring.
+  intros. edestruct (sph_facets_ok_full c r) as (es & E & _ & F); try eassumption.
+  exists es; split; assumption.
 Qed.
 
 Lemma sph_inside_facets (c : pt) (r : R) (p : pt) :
@@ -156,19 +184,29 @@ Proof.
 Qed.
 
 (* ---------------- RCC ---------------- *)
-Theorem rcc_facets_ok (v h : pt) (r : R) :
+Lemma rcc_facets_ok_full (v h : pt) (r : R) :
   h <> (0, 0, 0) ->
-  exists es, rcc RS (pl v ++ pl h ++ [r]) = Ok es /\
+  exists es, rcc RS (pl v ++ pl h ++ [r]) = Ok es /\ Forall entry_wf es /\
              Forall2 same_facet es (rcc_facets v h r).
 Proof.
   intros Hh. open_body @rcc. rewrite v3_at0, v3_at3.
   change 6%nat with (3 + (3 + 0))%nat. rewrite !nth_skip. cbn [nth].
-  eexists; split; [reflexivity|]. unfold rcc_facets.
+  eexists; split; [reflexivity|].
+  split; [constructor; [rewrite !vlist_pl; now apply wf_cyl | now apply wf_end_planes]|]. unfold rcc_facets.
   constructor; [|apply end_planes_ok].
   pose proof (norm2_pos h Hh) as Hn.
   exists (norm2 h). split; [exact Hn|]. intros p.
   rewrite !vlist_pl. destruct v as [[vx vy] vz], h as [[hx hy] hz].
   cbn [vlist pl app entry_value eval_surf IZR IPR]. unfold perp2, sqr, norm2, dot, vsub in *. destruct p as [[x y] z]. field. lra.
+Qed.
+
+Theorem rcc_facets_ok (v h : pt) (r : R) :
+  h <> (0, 0, 0) ->
+  exists es, rcc RS (pl v ++ pl h ++ [r]) = Ok es /\
+             Forall2 same_facet es (rcc_facets v h r).
+Proof.
+  intros. edestruct (rcc_facets_ok_full v h r) as (es & E & _ & F); try eassumption.
+  exists es; split; assumption.
 Qed.
 
 (* the solid: v + t h + w, 0 < t < 1, w normal to h, |w| < |r| *)
@@ -281,6 +319,23 @@ Proof.
   apply Forall2_app3; try apply rhp_pair_ok. apply end_planes_ok.
 Qed.
 
+Lemma rhp_pair_wf (v w : pt) :
+  w <> (0, 0, 0) ->
+  Forall entry_wf
+    [ (TP, plane_np RS w (vsum2 RS v w), 1%Z); (TP, plane_np RS w (vdiff RS v w), (-1)%Z) ].
+Proof. intros H. rewrite !plane_np_eq. wf_planes. Qed.
+
+Lemma rhp15_wf (v h r s t : pt) :
+  h <> (0, 0, 0) -> r <> (0, 0, 0) -> s <> (0, 0, 0) -> t <> (0, 0, 0) ->
+  forall es, rhp RS (pl v ++ pl h ++ pl r ++ pl s ++ pl t) = Ok es -> Forall entry_wf es.
+Proof.
+  intros Hh Hr Hs Ht es. open_body @rhp.
+  rewrite (pl_nil t), v3_at0, v3_at3, v3_at6, v3_at9, v3_at12. cbn [bind].
+  intros E. injection E as <-.
+  rewrite !plane_np_eq. repeat (apply Forall_cons; [apply wf_plane; assumption|]).
+  now apply wf_end_planes.
+Qed.
+
 (* the regular prism really is regular: s and t have the length of r, are
    normal to h, and make 60 and 120 degrees with r *)
 Lemma turn_regular (h r : pt) (c s : R) :
@@ -303,6 +358,26 @@ Proof.
     field_simplify; [|lra]. replace (s ^ 2) with (1 - c * c) by lra. field. lra.
   - rewrite dot_vadd_l, !dot_vmul_l, Hr, Y1. ring.
   - rewrite dot_vadd_l, !dot_vmul_l, Y2. unfold norm2. ring.
+Qed.
+
+Lemma rhp9_wf (v h r : pt) :
+  h <> (0, 0, 0) -> dot r h = 0 -> r <> (0, 0, 0) ->
+  forall es, rhp RS (pl v ++ pl h ++ pl r) = Ok es -> Forall entry_wf es.
+Proof.
+  intros Hh Hr Hr0 es. open_body @rhp. rewrite (pl_nil r), v3_at0, v3_at3, v3_at6.
+  rewrite (renorm_ok h Hh). cbn [bind]. rewrite !rotate_turn by assumption. rs.
+  replace (IZR 2 * PI / IZR 3) with (2 * (PI / 3)) by (simpl; field).
+  change (PI / IZR 3) with (PI / 3).
+  rewrite cos_PI3, sin_PI3, cos_2PI3, sin_2PI3.
+  intros E. injection E as <-.
+  assert (S3 : sqrt 3 * sqrt 3 = 3) by (apply sqrt_sqrt; lra).
+  assert (N : forall c, c * c + sqrt 3 / 2 * (sqrt 3 / 2) = 1 ->
+                        turn h r c (sqrt 3 / 2) <> (0, 0, 0)).
+  { intros c Hc. apply nz_of_norm2.
+    destruct (turn_regular h r c (sqrt 3 / 2) Hh Hr Hc) as (-> & _). now apply norm2_pos. }
+  rewrite !plane_np_eq.
+  repeat (apply Forall_cons; [apply wf_plane; first [assumption | apply N; nra]|]).
+  now apply wf_end_planes.
 Qed.
 
 (* ---------------- WED ---------------- *)
@@ -340,9 +415,9 @@ Proof.
   rewrite X1, X2. field. lra.
 Qed.
 
-Theorem wed_facets_ok (v a b h : pt) :
+Lemma wed_facets_ok_full (v a b h : pt) :
   wed_admissible a b h ->
-  exists es, wed RS (pl v ++ pl a ++ pl b ++ pl h) = Ok es /\
+  exists es, wed RS (pl v ++ pl a ++ pl b ++ pl h) = Ok es /\ Forall entry_wf es /\
              Forall2 same_facet es (wed_facets v a b h).
 Proof.
   intros Adm. destruct (wed_norms a b h Adm) as (Na & Nb & Nh).
@@ -350,7 +425,12 @@ Proof.
   destruct Adm as (Hab & Hah & Hbh & HD).
   assert (Adm : wed_admissible a b h) by (repeat split; assumption).
   open_body @wed. rewrite (pl_nil h), v3_at0, v3_at3, v3_at6, v3_at9. tospec.
-  eexists; split; [reflexivity|]. unfold wed_facets.
+  eexists; split; [reflexivity|].
+  split; [assert (Hc : cross (vsub a b) h <> (0, 0, 0));
+    [apply (nz_of_dot _ a); rewrite SN by assumption; rewrite (dot_comm b a), Hab;
+     fold (norm2 a); intros Z; apply HD;
+     replace (- det a b h * (norm2 a / norm2 a + 0 / norm2 b)) with (- det a b h) in Z by (field; lra); lra|];
+    apply Forall_app; split; [wf_planes; now apply nz_of_norm2 | apply wf_end_planes; now apply nz_of_norm2]|]. unfold wed_facets.
   set (c := cross (vsub a b) h) in *. set (D := det a b h) in *.
   assert (Hac : dot a c = - D).
   { rewrite dot_comm. unfold c. rewrite SN by assumption. rewrite (dot_comm b a), Hab.
@@ -373,6 +453,15 @@ Proof.
   - apply same_facet_plane with (c := 1); [lra|]. intros p. unfold plane_begin.
     rewrite dot_vadd_r, (dot_comm b a), Hab, dot_vsub_l, (dot_comm p b), (dot_comm v b).
     cbn [IZR IPR]. ring.
+Qed.
+
+Theorem wed_facets_ok (v a b h : pt) :
+  wed_admissible a b h ->
+  exists es, wed RS (pl v ++ pl a ++ pl b ++ pl h) = Ok es /\
+             Forall2 same_facet es (wed_facets v a b h).
+Proof.
+  intros. edestruct (wed_facets_ok_full v a b h) as (es & E & _ & F); try eassumption.
+  exists es; split; assumption.
 Qed.
 
 (* the solid: v + s a + t b + u h, s, t > 0, s + t < 1, 0 < u < 1 *)
@@ -520,4 +609,69 @@ Proof.
              a3 as [[x3 y3] z3].
     unfold vsub, vadd, vmul in *. injection C as C1 C2 C3.
     apply pair3; apply (Rmult_eq_reg_l D); try assumption; field_simplify; try assumption; lra.
+Qed.
+
+(* facet numbering for any parallelepiped *)
+Theorem box_general_facets_full (v a1 a2 a3 : pt) :
+  det a1 a2 a3 <> 0 ->
+  exists es, box RS (pl v ++ pl a1 ++ pl a2 ++ pl a3) = Ok es /\ Forall entry_wf es /\
+             Forall2 same_facet es (para_facets v a1 a2 a3).
+Proof.
+  intros HD. rewrite box_entries. cbv zeta. eexists; split; [reflexivity|].
+  split; [destruct (cross_nz a1 a2 a3 HD) as (C1 & C2 & C3); wf_planes|].
+  set (D := det a1 a2 a3) in *.
+  assert (A1 : dot (cross a2 a3) a1 = D) by (unfold D, det; apply dot_comm).
+  assert (A2 : dot (cross a3 a1) a2 = D).
+  { unfold D. rewrite (det_cyc a1 a2 a3). unfold det. apply dot_comm. }
+  assert (A3 : dot (cross a1 a2) a3 = D).
+  { unfold D. rewrite (det_cyc a1 a2 a3), (det_cyc a2 a3 a1). unfold det. apply dot_comm. }
+  assert (Abs : 0 < Rabs D) by now apply Rabs_pos_lt.
+  assert (K1 : forall q, dot (cross a2 a3) q = det q a2 a3) by (intros; unfold det; apply dot_comm).
+  assert (K2 : forall q, dot (cross a3 a1) q = det a1 q a3).
+  { intros q. rewrite (det_cyc a1 q a3). unfold det. apply dot_comm. }
+  assert (K3 : forall q, dot (cross a1 a2) q = det a1 a2 q).
+  { intros q. rewrite (det_cyc a1 a2 q), (det_cyc a2 q a1). unfold det. apply dot_comm. }
+  unfold para_facets, para_coord.
+  repeat (apply Forall2_cons); try apply Forall2_nil;
+    apply same_facet_plane with (c := Rabs D); try exact Abs; intros p; cbv beta zeta;
+    rewrite ?dot_vadd_r, ?A1, ?A2, ?A3; fold D;
+    rewrite <- ?K1, <- ?K2, <- ?K3, !dot_vsub_r;
+    destruct (Rltb_case D 0) as [[L ->]|[L ->]]; cbn [Z.opp IZR IPR];
+    (rewrite Rabs_left by lra) || (rewrite Rabs_right by lra); field; lra.
+Qed.
+
+(* for a right box these are the facets of the MCNP manual *)
+Lemma para_facets_right (v a1 a2 a3 : pt) :
+  box_admissible a1 a2 a3 ->
+  Forall2 (fun f g : pt -> R => exists c, 0 < c /\ forall p, f p = c * g p)
+          (para_facets v a1 a2 a3) (box_facets v a1 a2 a3).
+Proof.
+  intros (H12 & H13 & H23 & HD).
+  assert (H21 : dot a2 a1 = 0) by now rewrite dot_comm.
+  assert (H31 : dot a3 a1 = 0) by now rewrite dot_comm.
+  assert (H32 : dot a3 a2 = 0) by now rewrite dot_comm.
+  assert (N1 : 0 < norm2 a1) by (apply norm2_pos; now apply (det_nonzero_l a1 a2 a3)).
+  assert (N2 : 0 < norm2 a2).
+  { apply norm2_pos. apply (det_nonzero_l a2 a3 a1). now rewrite <- det_cyc. }
+  assert (N3 : 0 < norm2 a3).
+  { apply norm2_pos. apply (det_nonzero_l a3 a1 a2). now rewrite <- 2 det_cyc. }
+  set (D := det a1 a2 a3) in *.
+  assert (C1 : forall q, det q a2 a3 / D = dot a1 q / norm2 a1).
+  { intros q. pose proof (cross_parallel a1 a2 a3 q H12 H13) as E. fold D in E.
+    unfold det at 1. rewrite (dot_comm q). field_simplify_eq; [|lra]. lra. }
+  assert (C2 : forall q, det a1 q a3 / D = dot a2 q / norm2 a2).
+  { intros q. pose proof (cross_parallel a2 a3 a1 q H23 H21) as E.
+    rewrite <- (det_cyc a1 a2 a3) in E. fold D in E.
+    rewrite (det_cyc a1 q a3). unfold det at 1. rewrite (dot_comm q). field_simplify_eq; [|lra]. lra. }
+  assert (C3 : forall q, det a1 a2 q / D = dot a3 q / norm2 a3).
+  { intros q. pose proof (cross_parallel a3 a1 a2 q H31 H32) as E.
+    rewrite (det_cyc a3 a1 a2) in E. fold D in E.
+    rewrite (det_cyc a1 a2 q), (det_cyc a2 q a1). unfold det at 1. rewrite (dot_comm q).
+    field_simplify_eq; [|lra]. lra. }
+  unfold para_facets, para_coord, box_facets, plane_end, plane_begin.
+  repeat (apply Forall2_cons); try apply Forall2_nil.
+  1-2: exists (1 / norm2 a1). 3-4: exists (1 / norm2 a2). 5-6: exists (1 / norm2 a3).
+  all: (split; [apply Rdiv_lt_0_compat; lra|]); intros p; cbv beta zeta;
+       rewrite ?C1, ?C2, ?C3, ?dot_vsub_l; rewrite ?(dot_comm (vsub p v));
+       fold (norm2 a1) (norm2 a2) (norm2 a3); rewrite ?dot_vsub_r, ?(dot_comm p), ?(dot_comm v); field; lra.
 Qed.
